@@ -93,7 +93,7 @@ def run(v):
     _, corp = corpus.harvest()
     trace = os.path.join(wd, "trace.ndjson")
     args = ["c05", "--cases", cases, "--out", trace, "--seed", v.seed, "--corpus", corp,
-            "--sessions", 2000 if thorough else 150, "--thread-docs", 2000 if thorough else 200]
+            "--sessions", 2000 if thorough else 150, "--family-sentences", 646 if thorough else 80, "--thread-docs", 2000 if thorough else 200]
     rc, out, err = common.run_hv(args, timeout=7200)
     if rc != 0:
         raise common.ToolError("hv c05 failed: " + err[-2000:])
